@@ -5,7 +5,9 @@ atomically updates memory carries the condition inbounds(addr, n) for exactly th
 byte width of the access, and the complementary path returns Err with no store and no register
 write; (R02.c) the bounds-check function returns Ok exactly when addr+len does not wrap and
 [addr, addr+len) lies inside the metadata buffer, the packet, the stack or one registered range;
-(R02.f) raw memory primitives occur in no other function reachable from the interpreter entry.
+(R02.f) raw memory primitives occur in no other function reachable from the interpreter entry;
+(R02.h/p) neither the bounds check nor the arithmetic on register values that leads to it has an open
+panic site, so a refusal is the check's Err for every address and not a panic before it.
 Both directions of the property's iff follow for all addresses, widths and layouts because both
 parts are parametric in them."""
 import re
